@@ -262,13 +262,15 @@ def make_layout(first, n_lines, k_calls, alphabet='DTPMQCIJBGW', fixed_fn=None, 
                 before = ownership_keyed(f, what)
                 try:
                     if ci == 0:
+                        had = m.__dict__.get('_leading_comment') is not None      # "unclaim followed by claim restores": only where there was something to unclaim
                         m.unclaim_leading_comment()
                         m.claim_leading_comment()
-                        check(ownership_keyed(f, what) == before, what, 'unclaim+claim leading on', p, 'did not restore the attribution')
+                        check(not had or ownership_keyed(f, what) == before, what, 'unclaim+claim leading on', p, 'did not restore the attribution')
                     elif ci == 1:
+                        had = m.__dict__.get('_trailing_comment') is not None
                         m.unclaim_trailing_comment()
                         m.claim_trailing_comment()
-                        check(ownership_keyed(f, what) == before, what, 'unclaim+claim trailing on', p, 'did not restore the attribution')
+                        check(not had or ownership_keyed(f, what) == before, what, 'unclaim+claim trailing on', p, 'did not restore the attribution')
                     elif ci == 2:
                         m.unclaim_leading_comment()
                     elif ci == 3:
